@@ -530,7 +530,7 @@ static bool fs_op(long c, vh::Tok& t)
   } else if(!strcmp(o, "open")) {
     if(!hnd[h]) hnd[h] = new File;
     String p = arg(t.v[2]);
-    probe_after("d", p, true);
+    probe_place("p", p); probe_after("d", p, true);
     printf("%ld %d", c, hnd[h]->open(p, (uint)atoi(t.v[3])) ? 1 : 0);
   } else if(!strcmp(o, "close")) {
     if(hnd[h]) hnd[h]->close();
